@@ -46,7 +46,7 @@ LIMITS = (None, 1, 2, 3, 4, 7)
 # node up to some level, parent / child, repeated and prefix-of-each-other parts (models / model)
 NAME_POOL = (
     "proj.core.api.handlers.h", "proj.core.api_v2.schema.s", "proj.core.api.models.user", "proj.core.api.handlers.v2", "x",
-    "pkg.models.model.m.n", "a.b.a.b.c.a.b", "proj.core", "proj.core.api", "k.l.m.n.o.p.q.r.s",
+    "pkg.models.model.m.n", "a.b.a.b.c.a.b", "proj.core", "proj.core.api", "k.l.m.n.o.p.q.r.s", "proj.a.__init__", "Pkg.Mod_1.sub2.__main__",
 )
 EDGE_ADDERS = {"add_edge"}
 BULK_EDGE_ADDERS = {"add_edges_from", "add_weighted_edges_from", "add_path", "add_cycle", "add_star", "update"}
@@ -698,6 +698,20 @@ def rule_r1_r3(cx: Ctx, cons: list[FuncInfo]) -> Flow:
                     "flattened name" if ok else f"`{norm(a, 40)}` reaches {what} without having passed the level-limit truncation: with a level limit, nodes/edges below the limit enter the graph (or are looked up) un-truncated",
                     where(f, node), kind="flow",
                 )
+    for f in cons:
+        for w in E.writes(f):
+            if w.root_kind not in ("classvar", "global"):
+                continue
+            st = stmt_of(w.node)
+            names_kept = any(set(flow.tags(x)) & {"RAW", "FLAT"} for x in ast.walk(st) if isinstance(x, ast.expr))
+            if names_kept:
+                res.add(
+                    "C09.R3", repo.key(f, st) + " [state shared between graphs]", False,
+                    f"`{header(st)}` keeps node names in state shared by all graphs ({w.root_kind} {w.root}.{w.field}): what was recorded while building one (limited) graph decides what another graph gets",
+                    where(f, w.node), kind="effect",
+                )
+            else:
+                res.observe(f"C09.R3: `{header(st)}` in {f.qualname} writes {w.root_kind} state during graph construction (no node name involved)")
     res.floor("C09.R1", 3, n)
     res.extra["c09_flatten_sites"] = n_flat
     res.extra["c09_limit_carriers"] = sorted(fl.carriers)
@@ -800,6 +814,43 @@ def guarded_distinct(cx: Ctx, cons: list[FuncInfo], f: FuncInfo, node: ast.AST, 
     return False, "not guarded"
 
 
+def _asks_reachability(cx: Ctx, f: FuncInfo, e: ast.AST, depth: int = 0, seen: set | None = None) -> str | None:
+    """Does evaluating `e` ask networkx whether one node can be *reached* from another (has_path, descendants, ...)?"""
+    seen = seen if seen is not None else set()
+    for n in ast.walk(e):
+        targets: list[FuncInfo] = []
+        if isinstance(n, ast.Call):
+            fq = cx.repo.resolve_name(f.module, n.func) if isinstance(n.func, (ast.Name, ast.Attribute)) else None
+            last = (fq or "").rsplit(".", 1)[-1]
+            if fq and fq.startswith("networkx.") and ("path" in last or last in ("descendants", "ancestors") or last.startswith(("dfs_", "bfs_"))):
+                return fq
+            if isinstance(n.func, ast.Attribute) and cx.is_graph(f, n.func.value) and ("path" in n.func.attr or n.func.attr in ("descendants", "ancestors")):
+                return n.func.attr
+            try:
+                targets, _ = cx.T.callees(f, n, byname_fallback=False)
+            except Exception:  # noqa: BLE001
+                targets = []
+        elif isinstance(n, ast.Compare) and len(n.ops) == 1 and isinstance(n.ops[0], (ast.In, ast.NotIn)):
+            try:
+                t = cx.T.expr(f, n.comparators[0])
+            except Exception:  # noqa: BLE001
+                continue
+            for m in members(t):
+                if m[0] == "cls" and m[1] in cx.repo.classes:
+                    c = cx.repo.lookup_method(cx.repo.classes[m[1]], "__contains__")
+                    if c is not None:
+                        targets.append(c)
+        for t_ in targets:
+            if t_.fq in seen or depth > 3 or isinstance(t_.node, ast.Lambda):
+                continue
+            seen.add(t_.fq)
+            for st in t_.node.body:
+                got = _asks_reachability(cx, t_, st, depth + 1, seen)
+                if got:
+                    return f"{got} (through {t_.qualname})"
+    return None
+
+
 def _flat_comparisons(cons: list[FuncInfo], flow: Flow) -> list[tuple[FuncInfo, ast.Compare]]:
     """Equality tests between two flattened names anywhere in the construction code."""
     out = []
@@ -831,6 +882,16 @@ def rule_r2(cx: Ctx, cons: list[FuncInfo], flow: Flow) -> None:
                 if u is None or v is None or isinstance(u, ast.Starred) or isinstance(v, ast.Starred):
                     res.undecide("C09.R2", key, "the two ends of the inserted edge cannot be identified", where(f, node))
                     continue
+                for c_, _pol in conds(f, node):
+                    asks = _asks_reachability(cx, f, c_)
+                    if asks:
+                        res.add(
+                            "C09.R2", repo.key(f, stmt_of(node)) + " [insertion independent of reachability]", False,
+                            f"whether `{norm(node, 60)}` happens depends on `{norm(c_, 60)}`, which asks {asks}: an import edge between two (flattened) nodes is dropped when the target is already reachable some other way - "
+                            "'a imports b' is then false in the limited graph although a module flattening to a imports one flattening to b",
+                            where(f, node), kind="dominance",
+                        )
+                        break
                 ok, why = guarded_distinct(cx, cons, f, node, u, v)
                 if ok is None:
                     res.undecide("C09.R2", key, why, where(f, node))
@@ -902,9 +963,10 @@ def tabulate_limit(cx: Ctx, entry: FuncInfo, style: str) -> tuple[list[tuple], s
     """Rows (user limit, depth, outcome) of the limit received by the graph; or the reason why it cannot be tabulated."""
     rows: list[tuple] = []
     root = "/srv/work/proj"
-    subs = ["", "/core", "/core/domain", "/core/domain/model"]
+    subs = ["", "/core", "/core/domain", "/core/domain/model", "/proj", "/libs/proj/core"]  # the last two repeat the root's own name
     for lim in (None, 1, 2, 5):
-        for depth, sub in enumerate(subs):
+        for sub in subs:
+            depth = sub.count("/")
             cap = Capture(cx)
             ev = Evaluator(cx.repo, tolerant=True, intercept={cx.g.fq: cap})
             mp = root + sub
@@ -939,7 +1001,7 @@ def tabulate_limit(cx: Ctx, entry: FuncInfo, style: str) -> tuple[list[tuple], s
             except Raised as r:
                 if not cap.calls:
                     if lim is None and r.name == "TypeError":
-                        rows.append((lim, depth, ("raise", r.name)))  # arithmetic on a missing limit
+                        rows.append((lim, depth, ("raise", r.name), mp))  # arithmetic on a missing limit
                         continue
                     return rows, f"{entry.qualname} raises {r.name} for level_limit={lim}, module_path {depth} level(s) below root_path"
             except Unknown as u:
@@ -948,7 +1010,7 @@ def tabulate_limit(cx: Ctx, entry: FuncInfo, style: str) -> tuple[list[tuple], s
             st, v = cap.limit()
             if st != "ok":
                 return rows, ("!" if st == "undetermined" else "") + f"{entry.qualname}: {v}" + (f" ({'; '.join(ev.notes[-2:])})" if ev.notes else "")
-            rows.append((lim, depth, ("value", v)))
+            rows.append((lim, depth, ("value", v), mp))
     return rows, None
 
 
@@ -998,23 +1060,23 @@ def _judge_limit_rows(cx: Ctx, entry: FuncInfo, rows: list[tuple]) -> None:
     res = cx.res
     base = f"{entry.relpath}::{entry.qualname}"
 
-    def show(lim, depth, out):
+    def show(lim, depth, out, mp=""):
         got = out[1] if out[0] == "value" else f"raises {out[1]}"
-        return f"level_limit={lim}, module_path {depth} level(s) below root_path: the graph receives limit {got!r}"
+        return f"level_limit={lim}, module_path {depth} level(s) below root_path (root /srv/work/proj, module {mp}): the graph receives limit {got!r}"
 
-    limited = [o for l, _d, o in rows if l is not None]
+    limited = [r[2] for r in rows if r[0] is not None]
     if limited and all(o == ("value", None) for o in limited) and getattr(cx, "scan_depends_on_limit", False):
         # the graph never sees the limit, but the module / import list handed to it is computed from the limit: the truncation may have
         # moved in front of the graph - a design these rules do not follow
         res.undecide("C09.R4", f"{base}::limit handed to the graph", "the graph is built without a limit while the scanned modules / imports depend on the limit: flattening seems to happen before the graph is built, which these rules cannot follow", where(entry, entry.node))
         return
-    none_rows = [(l, d, o) for l, d, o in rows if l is None]
+    none_rows = [r for r in rows if r[0] is None]
     bad = [r for r in none_rows if r[2] != ("value", None)]
     res.add("C09.R4", f"{base}::None stays None", not bad, "no limit stays no limit for every root/module path difference" if not bad else f"a missing limit is not passed through as None: {show(*bad[0])}", where(entry, entry.node), kind="decision-table")
-    same = [(l, d, o) for l, d, o in rows if l is not None and d == 0]
+    same = [r for r in rows if r[0] is not None and r[1] == 0]
     bad = [r for r in same if r[2] != ("value", r[0])]
     res.add("C09.R4", f"{base}::limit reaches the graph unchanged when the paths coincide", not bad, "root_path == module_path: the graph receives the user's limit" if not bad else f"{show(*bad[0])}, expected {bad[0][0]}", where(entry, entry.node), kind="decision-table")
-    deep = [(l, d, o) for l, d, o in rows if l is not None and d > 0]
+    deep = [r for r in rows if r[0] is not None and r[1] > 0]
     bad = [r for r in deep if r[2] != ("value", r[0] + r[1])]
     res.add(
         "C09.R4", f"{base}::offset counts the levels between root_path and module_path", not bad,
